@@ -133,7 +133,16 @@ func Effective(bs *schema.BlockSchema, blk *hclsyntax.Block) *Eff {
 		}
 	}
 	dk, has := keyPairs(bs, bs.Body, blk)
-	if !has {
+	missingKeyLabel := false
+	for i, l := range bs.Labels {
+		if l.IsDepKey && i >= len(blk.Labels) && len(bs.DependentBody) > 0 {
+			missingKeyLabel = true
+		}
+	}
+	if missingKeyLabel {
+		// a label the body depends on is not written: the dependent body cannot be resolved
+		e.Sel = Unresolved
+	} else if !has {
 		e.Sel = NoKeys
 	} else if dep, ok := bs.DependentBody[schema.NewSchemaKey(dk)]; !ok {
 		e.Sel = Unresolved
